@@ -682,6 +682,7 @@ func (fr *FnRun) loopEnv(st *State, spec *LoopSpec, phis []*ssa.Phi, vals map[*s
 	if ri, _, ok := stickySig(fr.fn.Signature, true); ok {
 		vars["sticky_r"] = fr.entry.vals[fr.fn.Params[ri]]
 	}
+	fr.bindLocals(st, vars)
 	return &Env{st: st, old: fr.entry, vars: vars, fr: fr, pkg: fr.envPkgOf()}
 }
 
@@ -745,12 +746,25 @@ func (fr *FnRun) havocLoopWrites(st *State, li *loopInfo, spec *LoopSpec) {
 		return
 	}
 	if len(spec.Modifies) > 0 {
-		env := &Env{st: st, old: fr.entry, vars: fr.env0, fr: fr}
+		vars := map[string]Val{}
+		for kk, vv := range fr.env0 {
+			vars[kk] = vv
+		}
+		fr.bindLocals(st, vars)
+		env := &Env{st: st, old: fr.entry, vars: vars, fr: fr}
 		pre := st.clone()
 		env.st = pre
 		for _, m := range spec.Modifies {
 			fr.havocLoc(st, m, env)
 		}
+		// frame guard: inside the loop only the havocked objects (and objects allocated later) may be written
+		g := &loopGuard{maxID: ex.objCount, ok: map[*Obj]bool{}, li: li}
+		for o, v := range st.heap {
+			if pv, had := pre.heap[o]; !had || pv != v {
+				g.ok[o] = true
+			}
+		}
+		st.guards = append(st.guards[:len(st.guards):len(st.guards)], g)
 		return
 	}
 	for b := range li.blocks {
@@ -815,6 +829,9 @@ func (fr *FnRun) addrRoot(st *State, li *loopInfo, addr ssa.Value) (*PtrV, bool)
 		}
 	case *ssa.IndexAddr:
 		if li.blocks[a.Block()] {
+			if base, ok := fr.addrRoot(st, li, a.X); ok && base == nil {
+				return nil, true // element of a loop-local array
+			}
 			// element of an array whose identity is loop-invariant: havoc the whole array
 			switch v := fr.tryValue(st, a.X).(type) {
 			case *SliceV:
@@ -892,7 +909,11 @@ func (fr *FnRun) loopCallEffects(st *State, li *loopInfo, c *ssa.CallCommon) {
 	}
 	var ctr *Contract
 	if fn, ok := c.Value.(*ssa.Function); ok {
-		ctr = ex.DB.Contracts[FuncKey(fn)]
+		key := FuncKey(fn)
+		if strings.HasPrefix(key, "encoding/binary.(") && strings.Contains(key, ").Uint") {
+			return // intrinsic read
+		}
+		ctr = ex.DB.Contracts[key]
 		if ctr != nil && ctr.Flags["inline"] == "" && !ctr.ModAll {
 			if len(ctr.Modifies) == 0 {
 				return
